@@ -81,24 +81,28 @@ pub fn unhex(s: &str) -> Vec<u8> {
 pub enum Payload {
     Gen { len: usize, seed: u64 },
     Hex(Vec<u8>),
+    Zeros(usize),
 }
 impl Payload {
     pub fn bytes(&self) -> Vec<u8> {
         match self {
             Payload::Gen { len, seed } => gen_payload(*len, *seed),
             Payload::Hex(b) => b.clone(),
+            Payload::Zeros(n) => vec![0u8; *n],
         }
     }
     pub fn len(&self) -> usize {
         match self {
             Payload::Gen { len, .. } => *len,
             Payload::Hex(b) => b.len(),
+            Payload::Zeros(n) => *n,
         }
     }
     pub fn tok(&self) -> String {
         match self {
             Payload::Gen { len, seed } => format!("g:{}:{}", len, seed),
             Payload::Hex(b) => format!("x:{}", hex(b)),
+            Payload::Zeros(n) => format!("z:{}", n),
         }
     }
     pub fn parse(t: &str) -> Option<Payload> {
@@ -106,6 +110,7 @@ impl Payload {
         match parts.as_slice() {
             ["g", len, seed] => Some(Payload::Gen { len: len.parse().ok()?, seed: seed.parse().ok()? }),
             ["x", h] => Some(Payload::Hex(unhex(h))),
+            ["z", n] => Some(Payload::Zeros(n.parse().ok()?)),
             _ => None,
         }
     }
